@@ -104,7 +104,8 @@ def rec(text, rid):
     from Bio.Seq import Seq
     from moclo.record import CircularRecord
 
-    return CircularRecord(Seq(text), id=rid, name=rid)
+    # record-wide annotations of any usual shape (decided by the text)
+    return CircularRecord(Seq(text), id=rid, name=rid, annotations=gen.annotation_variety("c11", rid, text[:24], len(text)))
 
 
 def assemble(vent, ments):
@@ -263,7 +264,13 @@ def one_triple(ctx, name, Vc, Mc, Nc, rng):
         except RuntimeError:
             pass
     wit = dict(triple=name, vector=sv, modules=mods)
-    vent = Vc(rec(rot_left(sv, rng.randrange(len(sv))), "vec"))
+    x = rng.randrange(len(sv))
+    if x % 2 == 0:
+        # hostile origin: on the first / last base of one of the vector's own sites, or just next to it
+        anchors = [a + d for st in (enz.site, rc(enz.site)) for a in occurrences(sv.upper(), st) for d in (0, 1, len(st) - 1, len(st), -1)]
+        if anchors:
+            x = anchors[(x // 2) % len(anchors)] % len(sv)
+    vent = Vc(rec(rot_left(sv, x), "vec"))
     try:
         if not vent.is_valid():
             ctx.violation("vector-instance-rejected:" + name, "%s rejects an instance of its own structure with exactly two sites of each enzyme" % Vc.__name__, **wit)
